@@ -1,0 +1,18 @@
+//go:build verif
+
+package packet
+
+import "time"
+
+// Hooks for the verification harness in /verif (build tag "verif" only).
+// They add no behaviour: each one exposes an existing unexported entry point.
+
+// VerifPurge runs the purge pass the minute goroutine runs, at a caller-chosen time.
+func (h *Session) VerifPurge(now time.Time) error { return h.purge(now) }
+
+// VerifPingWaiters returns the number of echo identifiers Ping/Ping6 are still waiting on.
+func VerifPingWaiters() int {
+	icmpTable.Lock()
+	defer icmpTable.Unlock()
+	return len(icmpTable.table)
+}
